@@ -415,6 +415,16 @@ func (e *Explorer) run(prefix []int, trace bool) *X {
 			break
 		}
 		if len(enabled) == 0 {
+			// only pollers left: the progress a yielder waits for may have been its own last step
+			// (unlock; kick; goto retry) - let them retry, bounded; forever = livelock
+			for _, t := range x.threads {
+				if !t.done && t.kind == "yield" && t.cond != nil && t.yieldN < 200 {
+					t.yieldN++
+					enabled = append(enabled, t)
+				}
+			}
+		}
+		if len(enabled) == 0 {
 			x.fails = append(x.fails, Failure{Key: "deadlock:" + x.deadlockKey(), Desc: "no enabled thread: " + x.describeThreads()})
 			x.abort()
 			return x
@@ -443,6 +453,9 @@ func (e *Explorer) run(prefix []int, trace bool) *X {
 		t := enabled[idx]
 		if t.kind != "yield" {
 			x.ops++
+			for _, o := range x.threads {
+				o.yieldN = 0
+			}
 		}
 		if trace {
 			x.trace = append(x.trace, fmt.Sprintf("-> %s resumes at %s %s", t.name, t.kind, objName(t.obj)))
